@@ -47,7 +47,10 @@ Record pstate := mkP {
   myseq : list (node * N);          (* i -> Router.advertSyncSeq, the sequence number i announces *)
   nseq : list (pkey * N);           (* (i, j) -> NeighborState.AdvertSeq of j at i *)
   seen : list (pkey * N);           (* (i, j) -> lastSeen of j at i (clock units) *)
-  now : N                           (* the clock *)
+  now : N;                          (* the clock *)
+  fetching : list (pkey * N)        (* (i, j) -> sequence number of the advertisement fetch of i towards j that is
+                                       outstanding (advertDataFetch keeps re-issuing it until its Data arrives, the
+                                       neighbour is gone, or a newer sequence number supersedes it); 0 = none *)
 }.
 
 Inductive pevent :=
@@ -55,6 +58,7 @@ Inductive pevent :=
 | PSync (i j : node) (s : N)                          (* i receives a Sync Interest of j carrying sequence s *)
 | PData (i j : node) (s : N) (adv : list adv_entry)   (* i receives advertisement Data named (j, s) *)
 | PSweep (i : node) (dead : N)                        (* checkDeadNeighbors at i, RouterDeadInterval = dead *)
+| PFetchFail (i j : node) (s : N)                     (* the fetch of i for (j, s) failed (NACK, timeout): retried later *)
 | PBase (e : event).                                  (* a table-level event driven directly *)
 
 Definition nbrs_of (S : net) (i : node) : list node :=
@@ -79,6 +83,7 @@ Definition ptrace (P : pstate) (e : pevent) : list event :=
       | None => []
       end
   | PSweep i dead => map (fun j => NbrDead i j) (victims P i dead)
+  | PFetchFail _ _ _ => []
   | PBase e => [e]
   end.
 
@@ -97,6 +102,7 @@ Definition refresh_seen (i : node) (t : N) (js : list node) (l : list (pkey * N)
 Definition actor (e : pevent) : option node :=
   match e with
   | PData i _ _ _ | PSweep i _ => Some i
+  | PFetchFail _ _ _ => None
   | PBase (Fetch i _) | PBase (Deliver i _ _) | PBase (NbrDead i _) | PBase (LateUpdate i _ _) => Some i
   | _ => None
   end.
@@ -117,7 +123,8 @@ Definition pstep_gen (div : N) (P : pstate) (e : pevent) : pstate * bool :=
            end
     end in
   match e with
-  | PClock t => (mkP S' (MS) (nseq P) (seen P) t, d)
+  | PClock t => (mkP S' (MS) (nseq P) (seen P) t (fetching P), d)
+  | PFetchFail _ _ _ => (P, false)     (* nothing changes: AdvertSeq stays, the fetch stays outstanding *)
   | PSync i j s =>
       match getr (base P) i with
       | Some ri =>
@@ -125,31 +132,34 @@ Definition pstep_gen (div : N) (P : pstate) (e : pevent) : pstate * bool :=
           else if memN j (nbrs ri) then
             (* known neighbour: markRecvPing always; the sequence number only if newer *)
             (mkP S' (MS) (if s <=? pget (i, j) (nseq P) then nseq P else pset (i, j) s (nseq P))
-                 (pset (i, j) (now P) (seen P)) (now P), d)
+                 (pset (i, j) (now P) (seen P)) (now P)
+                 (if s <=? pget (i, j) (nseq P) then fetching P else pset (i, j) s (fetching P)), d)
           else
             (* new neighbour: Add, markRecvPing, AdvertSeq := s *)
-            (mkP S' (MS) (pset (i, j) s (nseq P)) (pset (i, j) (now P) (seen P)) (now P), d)
+            (mkP S' (MS) (pset (i, j) s (nseq P)) (pset (i, j) (now P) (seen P)) (now P) (pset (i, j) s (fetching P)), d)
       | None => (P, false)
       end
-  | PData i j s adv => (mkP S' (MS) (nseq P) (seen P) (now P), d)
+  | PData i j s adv => (mkP S' (MS) (nseq P) (seen P) (now P)
+                            (match ptrace P e with [] => fetching P | _ => pdel (i, j) (fetching P) end), d)
   | PSweep i dead =>
       let vs := victims P i dead in
       (mkP S' (MS) (fold_left (fun acc j => pdel (i, j) acc) vs (nseq P))
-              (fold_left (fun acc j => pdel (i, j) acc) vs (seen P)) (now P), d)
+              (fold_left (fun acc j => pdel (i, j) acc) vs (seen P)) (now P)
+              (fold_left (fun acc j => pdel (i, j) acc) vs (fetching P)), d)
   | PBase ev =>
       match ev with
       | NbrUp i j =>
           (* Vf18AddNeighbor / neighbors.Add: AdvertSeq = 0, lastSeen = now (only if it was created) *)
-          if memN j (nbrs_of (base P) i) || (i =? j) || negb (memN j (nbrs_of S' i)) then (mkP S' (MS) (nseq P) (seen P) (now P), d)
-          else (mkP S' (MS) (pdel (i, j) (nseq P)) (pset (i, j) (now P) (seen P)) (now P), d)
+          if memN j (nbrs_of (base P) i) || (i =? j) || negb (memN j (nbrs_of S' i)) then (mkP S' (MS) (nseq P) (seen P) (now P) (fetching P), d)
+          else (mkP S' (MS) (pdel (i, j) (nseq P)) (pset (i, j) (now P) (seen P)) (now P) (fetching P), d)
       | NbrDead i j =>
           (* the harness-forced removal: the harness owns the clock and marks every other neighbour as just heard *)
           if memN j (nbrs_of (base P) i)
           then (mkP S' (MS) (pdel (i, j) (nseq P))
-                    (refresh_seen i (now P) (nbrs_of S' i) (pdel (i, j) (seen P))) (now P), d)
-          else (mkP S' (MS) (nseq P) (seen P) (now P), d)
-      | RouterDown i => (mkP S' (MS) (pdel_router i (nseq P)) (pdel_router i (seen P)) (now P), d)
-      | _ => (mkP S' (MS) (nseq P) (seen P) (now P), d)
+                    (refresh_seen i (now P) (nbrs_of S' i) (pdel (i, j) (seen P))) (now P) (pdel (i, j) (fetching P)), d)
+          else (mkP S' (MS) (nseq P) (seen P) (now P) (fetching P), d)
+      | RouterDown i => (mkP S' (MS) (pdel_router i (nseq P)) (pdel_router i (seen P)) (now P) (pdel_router i (fetching P)), d)
+      | _ => (mkP S' (MS) (nseq P) (seen P) (now P) (fetching P), d)
       end
   end.
 
@@ -167,4 +177,4 @@ Fixpoint ptrace_all (P : pstate) (evs : list pevent) : list event :=
   | e :: t => ptrace P e ++ ptrace_all (fst (pstep P e)) t
   end.
 
-Definition pinit : pstate := mkP [] [] [] [] 0.
+Definition pinit : pstate := mkP [] [] [] [] 0 [].
